@@ -109,6 +109,74 @@ def mergeDateAndTimePeriod (fd pd : DateTime) (dateTimex tpTimex : Str) (bt et :
       (.ok (triple (dateTimex ++ a) (dateTimex ++ b) p) (mk fd bt) (mk fd et) (mk pd bt) (mk pd et),
        tpAmPm && decide (hourOf bt < 12) && decide (hourOf et < 12))
 
+/-! ### repaired variants (`/verif/findings/dtperiod/*.diff`); the harness probes which variant the working tree follows
+
+Each patch rolls the end (or the begin) by one day when its clock time is not after (before) the other end's, and
+rewrites the date of that point's TIMEX when the date's TIMEX is definite (equals `luis_date` of the value). -/
+
+/-- which of the three patches the tree carries -/
+structure Fixes where
+  beginRoll : Bool      -- dtperiod-begin-date-reversed.diff
+  endRoll : Bool        -- dtperiod-end-date-reversed.diff
+  periodRoll : Bool     -- dtperiod-date+period-cross-midnight.diff
+deriving DecidableEq, Repr
+
+/-- `merge_two_time_points`, begin dated, after the patch: `if future_end <= future_begin:` both ends `+ 1 day`
+(OverflowError at the end of the calendar), the end's TIMEX date follows when `date_str == luis_date(future_begin)`. -/
+def mergeBeginFixed (fb pb : DateTime) (t1 : Str) (fe pe : DateTime) (t2 : Str) : Res :=
+  let fe0 := withTime fb.date (hourOf fe) (minuteOf fe) (secondOf fe)
+  let pe0 := withTime pb.date (hourOf pe) (minuteOf pe) (secondOf pe)
+  if fe0.le fb then
+    match addDays fe0 1, addDays pe0 1 with
+    | some fe1, some pe1 =>
+      let ds := if splitT t1 = formatDate fb.date then formatDate fe1.date else splitT t1
+      .ok (triple t1 (ds ++ t2) (luisSpan fb fe1)) fb fe1 pb pe1
+    | _, _ => .raises
+  else .ok (triple t1 (splitT t1 ++ t2) (luisSpan fb fe0)) fb fe0 pb pe0
+
+/-- `merge_two_time_points`, end dated, after the patch: `if past_end <= past_begin:` both begins `- 1 day`, the
+begin's TIMEX date follows when `date_str == luis_date(past_end)`. -/
+def mergeEndFixed (fb pb : DateTime) (t1 : Str) (fe pe : DateTime) (t2 : Str) : Res :=
+  let fb0 := withTime fe.date (hourOf fb) (minuteOf fb) (secondOf fb)
+  let pb0 := withTime pe.date (hourOf pb) (minuteOf pb) (secondOf pb)
+  if pe.le pb0 then
+    match addDays fb0 (-1), addDays pb0 (-1) with
+    | some fb1, some pb1 =>
+      let ds := if splitT t2 = formatDate pe.date then formatDate pb1.date else splitT t2
+      .ok (triple (ds ++ t1) t2 (luisSpan pb1 pe)) fb1 fe pb1 pe
+    | _, _ => .raises
+  else .ok (triple (splitT t2 ++ t1) t2 (luisSpan pb0 pe)) fb0 fe pb0 pe
+
+def mergeTwoTimePointsV (fx : Fixes) (k : Ends) (fb pb : DateTime) (t1 : Str) (fe pe : DateTime) (t2 : Str) (c1 c2 : Bool) :
+    Res × Bool :=
+  match k with
+  | .beginHasDate => if fx.beginRoll then (mergeBeginFixed fb pb t1 fe pe t2, c1 && c2) else mergeTwoTimePoints k fb pb t1 fe pe t2 c1 c2
+  | .endHasDate => if fx.endRoll then (mergeEndFixed fb pb t1 fe pe t2, c1 && c2) else mergeTwoTimePoints k fb pb t1 fe pe t2 c1 c2
+  | .both => mergeTwoTimePoints k fb pb t1 fe pe t2 c1 c2
+
+/-- `merge_date_and_time_periods` after the patch: `next_day = 1 day if end_time.time() < begin_time.time()`, added to
+both end values; the end's TIMEX date follows when `date_timex == luis_date(future_time)`. -/
+def mergeDateAndTimePeriodFixed (fd pd : DateTime) (dateTimex tpTimex : Str) (bt et : DateTime) (tpAmPm : Bool) : Res × Bool :=
+  if tpTimex.head? ≠ some 40 then (.noResult, false)
+  else
+    match rangeComponents tpTimex with
+    | none => (.noResult, false)
+    | some (a, b, p) =>
+      let mk (d t : DateTime) : DateTime := withTime d.date (hourOf t) (minuteOf t) (secondOf t)
+      let c := tpAmPm && decide (hourOf bt < 12) && decide (hourOf et < 12)
+      if et.secs < bt.secs then
+        match addDays (mk fd et) 1, addDays (mk pd et) 1 with
+        | some fe1, some pe1 =>
+          let ed := if dateTimex = formatDate fd.date then formatDate fe1.date else dateTimex
+          (.ok (triple (dateTimex ++ a) (ed ++ b) p) (mk fd bt) fe1 (mk pd bt) pe1, c)
+        | _, _ => (.raises, false)
+      else (.ok (triple (dateTimex ++ a) (dateTimex ++ b) p) (mk fd bt) (mk fd et) (mk pd bt) (mk pd et), c)
+
+def mergeDateAndTimePeriodV (fx : Fixes) (fd pd : DateTime) (dateTimex tpTimex : Str) (bt et : DateTime) (tpAmPm : Bool) :
+    Res × Bool :=
+  if fx.periodRoll then mergeDateAndTimePeriodFixed fd pd dateTimex tpTimex bt et tpAmPm
+  else mergeDateAndTimePeriod fd pd dateTimex tpTimex bt et tpAmPm
+
 /-! ### `parse_simple_cases` ("from 3 to 5 pm tomorrow", "between 3 and 5 on June 20") -/
 
 /-- the am/pm folding of the two hours: `isAm` = `am_str or desc_str.startswith('a')`, `isPm` likewise -/
